@@ -153,15 +153,24 @@ func (tps *TPS) KeyGen(ctx context.Context) ([]byte, error) {
 	// We then distribute the polynomial evaluations (shares) to all parties.
 	// Each party 'i' gets P(i).
 	tps.shareDistribution(ctx, xShares, yShares)
+	if err := tps.abortIfTimedOut(ctx, "share distribution"); err != nil {
+		return nil, err
+	}
 
 	// Having received all shares, we combine all shares received from all parties by adding them.
 	pk := tps.combineShares()
 	pkBytes := pk.Bytes()
 
 	tps.commitPhase(ctx, pkBytes)
+	if err := tps.abortIfTimedOut(ctx, "commitment distribution"); err != nil {
+		return nil, err
+	}
 
 	// Now we de-commit, and wait for everyone else to de-commit thus revealing their public key.
 	tps.revealPhase(ctx, pkBytes)
+	if err := tps.abortIfTimedOut(ctx, "public key distribution"); err != nil {
+		return nil, err
+	}
 	// Next, we ensure the commitments we received match the de-commitments
 	if err := tps.validateCommitments(); err != nil {
 		return nil, err
@@ -464,6 +473,15 @@ func (tps *TPS) waitForShareDistribution(ctx context.Context) {
 
 		tps.signal.Wait()
 	}
+}
+
+// abortIfTimedOut returns an error if the context expired: the wait that precedes it returns either because the
+// phase completed or because the context expired, and in the latter case the data of the phase is incomplete.
+func (tps *TPS) abortIfTimedOut(ctx context.Context, phase string) error {
+	if tps.contextTimedOut(ctx) {
+		return fmt.Errorf("%s did not complete: %w", phase, ctx.Err())
+	}
+	return nil
 }
 
 func (tps *TPS) contextTimedOut(ctx context.Context) bool {
